@@ -222,7 +222,9 @@ impl Ctx {
         if self.trace_calls {
             eprintln!("@@CALL {} {} {}", self.evaluations, rule, data);
         }
+        observe::wd_arm(rule, data);
         let o = observe::observe(rule, data);
+        observe::wd_disarm();
         if self.trace_calls {
             eprintln!("@@RET {}", self.evaluations);
         }
